@@ -181,7 +181,7 @@ func init() {
 	props["C40"].Race = true
 	props["C40"].Quick, props["C40"].Thorough = 1500, 100000
 	props["C40"].QuickS, props["C40"].ThorS = 150, 1800
-	props["C40"].Also = []string{"w2", "w3", "w7"}
+	props["C40"].Also = []string{"w2", "w3", "w7", "w5"}
 	props["C12"].Also = []string{"w6"}
 	props["C12"].Real = append(props["C12"].Real, "40% of the runs: world w6 (sequential exactness over every global parameter, about 150: after an accepted API patch of 1-6 global parameters the configuration in force differs from the previous one in exactly the fields of the payload, and each of them holds what a configuration file with the same text yields; real Core, conf.Patch*/Validate/Clone, file loader)")
 	props["C38"].Also = []string{"w6"}
@@ -198,7 +198,7 @@ func init() {
 	props["C20"].Real = append(props["C20"].Real, "20% of the runs: world w7 (real RTMP connections: runOnConnect/runOnDisconnect per connection and runOnRead/runOnUnread per reading connection, observed where the hook closures announce themselves; every announced command must have been executed when the server has shut down)")
 	props["C20"].LevelNote = strings.Replace(props["C20"].LevelNote, "the per-protocol session code is not covered", "runOnRead/runOnUnread and runOnConnect/runOnDisconnect are decided across real RTMP connections (w7) and real HLS sessions (w5); RTSP, SRT, WebRTC, MoQ sessions are not covered", 1)
 	props["C03"].Real = append(props["C03"].Real, "40% of the runs: world w5 (real HLS server: the session code that turns an HTTP request into a reader of a path, judged against the recorded decisions of the authentication manager)")
-	props["C40"].Real = append(props["C40"].Real, "13% of the runs each: world w2 (real Core with concurrent API configuration edits and reads, path manager, configuration watcher, record cleaner), world w3 (recorder, playback list/get handlers with their parsing goroutines, record store) and world w7 (real RTMP server with real gortmplib clients publishing and reading, API list and kick of live connections, shutdown with connections open), all built with the race detector")
+	props["C40"].Real = append(props["C40"].Real, "10% of the runs each: world w2 (real Core with concurrent API configuration edits and reads, path manager, configuration watcher, record cleaner), world w3 (recorder, playback list/get handlers with their parsing goroutines, record store), world w7 (real RTMP server with real gortmplib clients publishing and reading, API list and kick of live connections, shutdown with connections open) and world w5 (real HLS server on the real path manager: a path of a regular-expression entry whose publisher leaves and returns while an API client lists and kicks its HLS sessions), all built with the race detector")
 	props["C40"].LevelNote += "; metrics scrapes over HTTP are outside; of the real session kick paths only RTMP's is exercised (w7), the other front-ends are stubs; data races are those the Go race detector reports under the explored schedules"
 }
 
